@@ -521,6 +521,36 @@ def _apply_block(text, first_line, relpath, directives, tmpl_file, log, stub):
             tail_end = body_close
             while tail_end > tail_start and text[tail_end - 1] in ' \t\n':
                 tail_end -= 1
+            # block statements (`for`/`while`/`loop`/`if`/`match` without a trailing `;`) before the tail are not part of it
+            while True:
+                while tail_start < tail_end and msk[tail_start] in ' \t\n':
+                    tail_start += 1     # masked comments count as blanks
+                mk = re.compile(r'(for|while|loop|if|match)\b').match(msk, tail_start)
+                if not mk:
+                    break
+                jb = lex.find_at_depth0(msk, mk.end(), tail_end, '{;')
+                if jb < 0 or msk[jb] != '{':
+                    break
+                je = lex.match_bracket(msk, jb) + 1
+                while True:
+                    me = re.compile(r'\s*else\b').match(msk, je)
+                    if not me:
+                        break
+                    jb2 = lex.find_at_depth0(msk, me.end(), tail_end, '{;')
+                    if jb2 < 0 or msk[jb2] != '{':
+                        break
+                    je = lex.match_bracket(msk, jb2) + 1
+                k2 = je
+                while k2 < tail_end and text[k2] in ' \t\n':
+                    k2 += 1
+                # skip line comments between statements
+                while k2 < tail_end and msk[k2:k2 + 2] == '  ' and text[k2:k2 + 2] == '//':
+                    k2 = text.index('\n', k2) + 1
+                    while k2 < tail_end and text[k2] in ' \t\n':
+                        k2 += 1
+                if k2 >= tail_end:
+                    break      # the block itself is the tail expression
+                tail_start = k2
             if tail_start >= tail_end:
                 raise ExtractError('bind_tail: function has no tail expression')
             inserts.append((tail_start, [], 'let %s = ' % d['name']))
